@@ -568,10 +568,50 @@ impl Gen {
         let n = rng.below(100_000);
         out.push_str(&format!("  function <MemberLevelTypeParameter{n}> identityNumber{n}(x: MemberLevelTypeParameter{n}): MemberLevelTypeParameter{n} = x\n\n"));
       }
+      let mut bound_interface: Option<String> = None;
+      if !matches!(c.kind, ClassKind::Interface) && c.tparam.is_none() && rng.chance(1, 5) {
+        // a call that instantiates a bounded type parameter with the type argument of a value
+        // that comes from a function of another class: the "is not a subtype of the bound" error
+        // is located where that type argument is *written* — in the other class's module
+        let mut cands: Vec<(String, String, FnSig)> = Vec::new(); // (generic class, provider class, provider function)
+        for p in &visible {
+          if matches!(p.kind, ClassKind::Interface) || p.tparam.is_some() || p.name == c.name {
+            continue;
+          }
+          for f in p.fns.iter().filter(|f| !f.is_method && !f.is_private) {
+            let g = match &f.ret {
+              Ty::Class(g, true) => Some(g.clone()),
+              Ty::ClassArg(g, _) => Some(g.clone()),
+              _ => None,
+            };
+            if let Some(g) = g {
+              if visible.iter().any(|x| x.name == g && x.tparam.is_some() && matches!(x.kind, ClassKind::Struct(_))) {
+                cands.push((g, p.name.clone(), f.clone()));
+              }
+            }
+          }
+        }
+        if !cands.is_empty() {
+          let (g, p, f) = rng.pick(&cands).clone();
+          let n = rng.below(100_000);
+          let mut scope = Scope { locals: Vec::new(), this_class: Some(c.clone()), in_method: false };
+          let args: Vec<String> = f.params.iter().map(|(_, t)| self.gen_expr(rng, t, 1, &mut scope, &visible)).collect();
+          out.push_str(&format!(
+            "  function <T: BoundThatNothingSatisfies{n}<T>> needsBound{n}(x: {g}<T>): unit = {{  }}\n\n  function callsBound{n}(): unit = {}.needsBound{n}({p}.{}({}))\n\n",
+            c.name,
+            f.name,
+            args.join(", ")
+          ));
+          bound_interface = Some(format!("interface BoundThatNothingSatisfies{n}<T> {{}}\n\n"));
+        }
+      }
       if let (Some(t), ClassKind::Struct(_)) = (&c.tparam, &c.kind) {
         out.push_str(&format!("  method unwrapTheValue(): {t} = this.value\n"));
       }
       out.push_str("}\n\n");
+      if let Some(i) = bound_interface {
+        out.push_str(&i);
+      }
     }
     if rng.chance(1, 10) {
       out.push_str(&format!("// {}\n", rng.pick(COMMENT_TEXT)));
@@ -669,7 +709,16 @@ impl Gen {
               let a = self.fresh_lower(rng, &taken);
               let b = self.fresh_lower(rng, &[taken.clone(), vec![a.clone()]].concat());
               let i = self.gen_expr(rng, &Ty::Int, 1, scope, visible);
-              s.push_str(&format!("    let ({a}, {b}) = ({i}, {e});\n"));
+              match rng.below(4) {
+                // members and fields of the tuple classes (module std.tuples, never imported)
+                0 => {
+                  s.push_str(&format!("    let {a} = ({i}, {e}).first();\n    let {b} = ({i}, {e}).e1;\n"));
+                }
+                1 => {
+                  s.push_str(&format!("    let {{ e0 as {a}, e1 as {b} }} = ({i}, {e});\n"));
+                }
+                _ => s.push_str(&format!("    let ({a}, {b}) = ({i}, {e});\n")),
+              }
               scope.locals.push((a, Ty::Int));
               scope.locals.push((b, Ty::Str));
             }
